@@ -371,12 +371,14 @@ Definition isCCW (ring : list pt) : bool :=
     else 0 <? orient uplow hi downlow
   else px downhi - px hi <? 0.
 
-(* Polygon::normalize(LinearRing*, bool clockwise) *)
+(* Polygon::normalize(LinearRing*, bool clockwise) calls coords.closeRing() , i.e. allowRepeated = false (the candidate fix
+   proposed_fixes/C20_polygon_normalize_keep_repeated_seam_point.diff changes exactly this flag) *)
+Definition POLY_CLOSE_ALLOW_REPEATED : bool := false.
 Definition norm_ring (clockwise : bool) (r : list pt) : list pt :=
   match r with
   | [] => []
   | _ => let o := removelast r in
-         let c := close_ring false (scroll (min_coord o) o) in
+         let c := close_ring POLY_CLOSE_ALLOW_REPEATED (scroll (min_coord o) o) in
          if Bool.eqb (isCCW c) clockwise then rev c else c
   end.
 (* SimpleCurve::normalizeClosed *)
@@ -490,7 +492,7 @@ Definition ring_ok (r : list pt) : bool :=
   match r with
   | [] => true
   | _ => let o := removelast r in
-         let c := close_ring false (scroll (min_coord o) o) in
+         let c := close_ring POLY_CLOSE_ALLOW_REPEATED (scroll (min_coord o) o) in
          Nat.eqb (count_pt (min_coord o) o) 1 && (2 <=? length o)%nat && Bool.eqb (isCCW (rev c)) (negb (isCCW c))
   end.
 (* closed curves (LineString / LinearRing) are oriented only when they have >= 4 points *)
@@ -550,6 +552,6 @@ Fixpoint ccw_indeterminate (g : geom) : bool :=
   match g with
   | GPoint _ => false
   | GLine c | GRing c => is_closed c && ccw_indeterminate_ring true c
-  | GPoly s hs => ccw_indeterminate_ring false s || existsb (ccw_indeterminate_ring false) hs
+  | GPoly s hs => ccw_indeterminate_ring POLY_CLOSE_ALLOW_REPEATED s || existsb (ccw_indeterminate_ring POLY_CLOSE_ALLOW_REPEATED) hs
   | GColl _ gs => existsb ccw_indeterminate gs
   end.
